@@ -303,6 +303,34 @@ def normalise_filter_loops(fn: ast.AST, new_names: Set[str], ref_names: Set[str]
 
 
 # ------------------------------------------------------------------ new module constants
+_MUTATORS = {"append", "extend", "add", "update", "setdefault", "pop", "popitem", "clear",
+             "remove", "insert", "discard", "sort", "reverse", "__setitem__", "__delitem__"}
+
+
+def _mutated(tree: ast.Module, name: str, val: ast.AST) -> bool:
+    """a module-level list / dict / set that is written to is state (a memo, a registry), not a
+    constant: it must stay visible to the rules"""
+    if not isinstance(val, (ast.List, ast.Set, ast.Dict)):
+        return False
+    if isinstance(val, ast.Dict) and not val.keys or isinstance(val, (ast.List, ast.Set)) and \
+            not val.elts:
+        return True  # an empty container at module level exists to be filled
+    for x in ast.walk(tree):
+        if isinstance(x, ast.Subscript) and isinstance(x.value, ast.Name) and \
+                x.value.id == name and isinstance(x.ctx, (ast.Store, ast.Del)):
+            return True
+        if isinstance(x, ast.Call) and isinstance(x.func, ast.Attribute) and isinstance(
+                x.func.value, ast.Name) and x.func.value.id == name and \
+                x.func.attr in _MUTATORS:
+            return True
+        if isinstance(x, ast.AugAssign) and isinstance(x.target, ast.Name) and \
+                x.target.id == name:
+            return True
+        if isinstance(x, ast.Global) and name in x.names:
+            return True
+    return False
+
+
 def inline_module_constants(tree: ast.Module, new_names: Set[str]) -> int:
     env: Dict[str, ast.AST] = {}
     keep = []
@@ -317,7 +345,7 @@ def inline_module_constants(tree: ast.Module, new_names: Set[str]) -> int:
                     isinstance(x, ast.Name) and x.id in new_names for x in ast.walk(val)):
             stores = [x for x in ast.walk(tree) if isinstance(x, ast.Name) and x.id == tgt.id and
                       isinstance(x.ctx, (ast.Store, ast.Del))]
-            if len(stores) == 1:
+            if len(stores) == 1 and not _mutated(tree, tgt.id, val):
                 env[tgt.id] = val
                 continue
         keep.append(st)
